@@ -13,6 +13,7 @@ import (
 )
 
 var verifRoot = "/verif"
+var noEvidence bool
 
 func main() {
 	if len(os.Args) < 2 {
@@ -213,7 +214,9 @@ func cmdCheck(args []string) {
 	prop := fs.String("property", "", "property id")
 	tier := fs.String("tier", "quick", "quick|thorough")
 	update := fs.Bool("update-baseline", false, "record the obligations that discharge as the baseline")
+	noEv := fs.Bool("no-evidence", false, "do not write evidence/replay files under /verif (self-test runs)")
 	fs.Parse(args)
+	noEvidence = *noEv
 	if t := os.Getenv("VERIF_TIER"); t != "" && *tier == "" {
 		*tier = t
 	}
